@@ -28,3 +28,13 @@ package action
 //@   abstract *
 //@   requires proc != nil && proc.Tx != nil && proc.Tx.Flags != nil
 //@   modifies *
+
+// C19: `csvq calc <expression>`: the text is pasted between SELECT and FROM STDIN; a text that makes this parse as something
+// other than one plain SELECT (a set operation, several statements) is a syntax error; it used to be taken apart with
+// unchecked type assertions outside any recover (raw Go panic, exit 2)
+//@ func Calc
+//@   property C19
+//@   safety
+//@   abstract *
+//@   requires proc != nil && proc.Tx != nil && proc.Tx.Flags != nil && proc.Tx.Session != nil
+//@   modifies *
